@@ -150,6 +150,9 @@ def tracer_rel(p, root):
 @st.composite
 def case_strategy(draw):
     steps = draw(history_strategy(12, gc=False, clock_ticks="none", props_ops=True, open_txn=False))
+    # pre-built files handed in by the caller are written by the CALLER (here: the harness, untraced): their durability is not the
+    # library's to establish, so that operation is replaced by an ordinary append in this check
+    steps = [({"op": "append", "n": 2} if s_["op"] == "append_twins" else s_) for s_ in steps]
     return {"kind": "trace", "steps": [{"op": "append", "n": 1}] + steps}
 
 
